@@ -44,6 +44,13 @@ theorem c18_estimate_spec (send delay : Int64) (h : estimateWF send delay = true
     send.toInt - (estimateNs (sendTimestamp send &&& 0xFFFFFF) (send + delay)).toInt ≤ 3815 :=
   estimate_ok send delay h
 
+/-- the estimate does not depend on the delay: any two receive instants in range of the same send instant
+    (before or after a wrap of the field) yield the same result -/
+theorem c18_estimate_independent_of_delay (send d1 d2 : Int64)
+    (h1 : estimateWF send d1 = true) (h2 : estimateWF send d2 = true) :
+    estimateNs (sendTimestamp send &&& 0xFFFFFF) (send + d1) = estimateNs (sendTimestamp send &&& 0xFFFFFF) (send + d2) :=
+  estimate_indep send d1 d2 h1 h2
+
 /-- the predicate the driver evaluates on the real code holds of the model, for every pair of `int64`s -/
 theorem c18_estimate (send delay : Int64) :
     estimateOk send delay
